@@ -226,6 +226,32 @@ theorem C06_full_partial_render_after_failed_render (env : Env) (hlib : Djc.Proo
 leaves entries — all under ids of that render, none in the provide registries -/
 example : Djc.Proofs.TreeFail.exFailSummary = true := by decide +kernel
 
+/-- **All sequences mixing successful and failing renders** (the second quantifier of C06, for the model of the code on
+the tree fragment): after *any* history of top-level renders — each a `{% component %}` tag of the fragment with a
+Context of its own, returning or raising in any order, for any reason — every registry entry that existed before the
+history is untouched, the provide registries are untouched, the id counter did not go back, nothing is registered under
+an id not generated yet; in particular the world is again one the theorems above apply to. -/
+theorem C06_full_partial_any_history_disturbs_nothing_older (env : Env) (hlib : Djc.Proofs.Tree.GoodLib env) (fuel : Nat)
+    (qs : List Djc.Proofs.TreeFail.Req) (w : World) (hq : ∀ q ∈ qs, q.Good env) (hw : Djc.Proofs.Tree.WInv w) :
+    let w' := Djc.Proofs.TreeFail.runHist env fuel qs w
+    Djc.Proofs.Tree.WInv w' ∧ w.nextId ≤ w'.nextId ∧
+      (∀ k, k < w.nextId → alGet k w'.ctxCache = alGet k w.ctxCache ∧ alGet k w'.rendererCache = alGet k w.rendererCache ∧
+        alGet k w'.childAttrs = alGet k w.childAttrs) ∧
+      w'.provideCache = w.provideCache ∧ w'.provideRefs = w.provideRefs ∧ w'.allRefIds = w.allRefIds := by
+  have hf := Djc.Proofs.TreeFail.history_frame env hlib fuel qs w hq hw
+  exact ⟨hf.winv hw, hf.next, fun k hk => ⟨hf.cc k hk, hf.rc k hk, hf.ca k hk⟩, hf.prov.1, hf.prov.2.1, hf.prov.2.2⟩
+
+/-- **Repeating renders any number of times does not grow the registries**: a history in which every render returned —
+any number of renders, any trees — leaves `component_context_cache`, `component_renderer_cache` and
+`child_component_attrs` lookup for lookup as they were. -/
+theorem C06_full_partial_returning_histories_leave_nothing (env : Env) (hlib : Djc.Proofs.Tree.GoodLib env) (fuel : Nat)
+    (qs : List Djc.Proofs.TreeFail.Req) (w : World) (hq : ∀ q ∈ qs, q.Good env) (hw : Djc.Proofs.Tree.WInv w)
+    (hall : Djc.Proofs.TreeFail.allReturn env fuel qs w) :
+    (∀ k, alGet k (Djc.Proofs.TreeFail.runHist env fuel qs w).ctxCache = alGet k w.ctxCache) ∧
+    (∀ k, alGet k (Djc.Proofs.TreeFail.runHist env fuel qs w).rendererCache = alGet k w.rendererCache) ∧
+    (∀ k, alGet k (Djc.Proofs.TreeFail.runHist env fuel qs w).childAttrs = alGet k w.childAttrs) :=
+  Djc.Proofs.TreeFail.history_all_returned env hlib fuel qs w hq hw hall
+
 /-- The property at full strength for the model of the code: whatever callback raises, every
 registry of the world is as before the render.  OPEN; false on the unchanged tree. -/
 def C06_full : Prop :=
